@@ -154,6 +154,23 @@ def shuffle_modes(ctx, n=None):
     for i in range(n):
         w = worlds.gen_world(rng, n_layers=rng.choice([2, 3, 4]), tests_per_layer=(2, 5),
                              kinds=["pass", "pass", "pass", "fail", "error", "skipBody"], p_fault=0.0, p_write=0.0)
+        if i % 3 == 0:
+            # a layer with a failure *and* an error: the child's report lists both, in that order
+            kinds_ = ["fail", "error", "pass", "error", "fail"]
+            by_layer = {}
+            for t in w["tests"]:
+                by_layer.setdefault(t["layer"], []).append(t)
+            for li, ts in by_layer.items():
+                if w["layers"][li]["kind"] != "unit" and len(ts) >= 2:
+                    for k_, t in enumerate(ts):
+                        fresh = worlds.gen_test(rng, t["id"], [10 ** 6 + 100 * t["id"]], kind=kinds_[k_ % len(kinds_)], p_write=0.0)
+                        for key in ("layer", "module"):
+                            fresh[key] = t[key]
+                        for key in ("rebind", "ownstream", "label"):
+                            fresh.pop(key, None)
+                        t.clear()
+                        t.update(fresh)
+                    break
         seed = rng.randint(0, 10 ** 6)
         jobs.append((i, w, seed, rng.choice([2, 3, 4]), rng.randint(0, 10 ** 6)))
 
@@ -203,6 +220,11 @@ def shuffle_modes(ctx, n=None):
             s2 = sorted(x for x in worlds.parse_output(res["par"].stdout)["summaries"] if x != (0, 0, 0, 0))
             if s1 != s2:
                 bad = "per-layer summaries %r sequentially, %r with -j %d" % (s1, s2, j)
+            else:
+                p1, p2 = worlds.parse_output(res["seq"].stdout), worlds.parse_output(res["par"].stdout)
+                for key, what in (("fail_names", "failures"), ("err_names", "errors")):
+                    if sorted(p1[key]) != sorted(p2[key]):
+                        bad = "'Tests with %s' lists %r sequentially, %r with -j %d" % (what, sorted(p1[key]), sorted(p2[key]), j)
         if bad:
             ctx.violation("seed %d: %s" % (seed, bad), case, signature="modes-disagree")
 
